@@ -733,6 +733,13 @@ func boundedJSONRoundTrip() (ok bool) {
 			ok = false
 		}
 	}()
+	// a JSON document that is not an object is not a claims-set (as for CBOR: C07 "in CBOR and in JSON alike")
+	for _, doc := range []string{"null", "[]", "0", `"x"`, "true", ""} {
+		if c, err := DecodeClaimsFromJSON([]byte(doc)); err == nil {
+			fmt.Printf("bounded: DecodeClaimsFromJSON(%q) returned %T without an error\n", doc, c)
+			return false
+		}
+	}
 	for _, c := range append(validSets(), extSets()...) {
 		j, err := ValidateAndEncodeClaimsToJSON(c)
 		if err != nil {
